@@ -19,7 +19,7 @@ class Engine(BaseEngine):
     profiles = ("debug",)
     rule = ("events signed by OwnedEvent::sign_new with random keys, all kinds/times, tags with 0..5 strings (empty, nested-looking '[\"a\"]', "
             "quotes, backslashes, every control character, multi-byte characters) and content over every ASCII character incl. all 32 "
-            "controls, DEL, 2/3/4-byte scalars (thorough: every scalar class boundary); the id is compared with SHA-256 (python hashlib, "
+            "controls, DEL, 2/3/4-byte scalars (thorough: every scalar class boundary), multi-byte characters straddling the 16/32/48/64-byte marks of an escape-free run followed by a character that needs escaping; the id is compared with SHA-256 (python hashlib, "
             "independent) of the canonical serialisation computed by the extracted Coq model Codec.canon from the same parts; verify() must "
             "accept; every single-field mutation (bits of id/pubkey/sig, created_at+-1, kind+-1, each tag string edited, tag split/merged/"
             "swapped/added, content edited, '\\n' vs backslash-n) must be rejected. Plus the signed fixture events of the repository's tests, "
@@ -52,6 +52,14 @@ class Engine(BaseEngine):
         sk = bytes([7]) * 32
         for ch in chars:
             out.append(("char", "sign n:1 n:1000 %s %s %s" % (C.ttags([[b"t", ("x" + ch).encode()]]), C.tb(("a" + ch + "b").encode()), C.tb(sk))))
+        # block boundaries: a multi-byte character straddling the 16/32/48/64-byte mark of an escape-free run, directly
+        # followed by a character that must be escaped (a copy loop working in fixed blocks resumes mid-character)
+        for pad in ([13, 14, 15, 16, 29, 30, 31, 47, 63] if tier == "quick" else list(range(0, 70))):
+            for mb in ("é", "†", "𝄞"):
+                for nxt in ('"', "\\", "\n", "\x01"):
+                    nx = {'"': '"', "\\": "\\", "\n": "\n", "\x01": "\x01"}[nxt]
+                    text = "a" * pad + mb + nx + "z"
+                    out.append(("block-boundary", "sign n:1 n:1000 %s %s %s" % (C.ttags([[b"t", text.encode()]]), C.tb(("q" + text).encode()), C.tb(sk))))
         for js in fixtures():
             out.append(("fixture", "verifyjson " + C.tb(js)))
             i = js.find(b'"content":"') + 11
@@ -82,7 +90,7 @@ class Engine(BaseEngine):
         m = C.kv(model_out)
         if o.endswith("impl=panic") or "r" not in i:
             return Verdict(oracle_ok=False, cls="panics", detail=o[:80], outcome="panic")
-        if gcls in ("signed", "char"):
+        if gcls in ("signed", "char", "block-boundary"):
             if i["r"] != "ok":
                 return Verdict(oracle_ok=False, cls="sign-fails", detail="sign_new failed: %s" % i["r"], outcome="err")
             if i["verify"] != "true":
